@@ -28,6 +28,7 @@ func init() {
 		Stub:           []string{"socket listeners"},
 		Assumptions:    []string{"one write call is atomic with respect to a concurrent read of the same file (README, File Writing and Archiving): bursts are injected between files, not inside a write"},
 		RequiredProbes: []string{"c14.burst.new-device", "c14.burst.registration", "c14.burst.rotation", "c14.burst.reports", "c14.rate-limited", "c14.archive-ok"},
+		RequiredSites:  []string{"archive.file", "archive.pubkey"},
 	})
 }
 
